@@ -142,6 +142,37 @@ def design_case(args):
     except Exception as ex:
         return [(tag + " execution [%s]" % str(ex)[:80], False, "%s: %s" % (type(ex).__name__, ex), time.time() - t0)]
 
+def kronecker_job(thorough):
+    """memory-safety contract of kronecker_product (splineutil.c), loops closed by invariants"""
+    W = "__CPROVER_object_whole"; NZ = 16 if not thorough else 24
+    kp = units.free_function("src/fitter/splineutil.c", "kronecker_product")
+    pre = r'''
+    #include <stddef.h>
+    #include <stdlib.h>
+    typedef struct cholmod_triplet_struct { size_t nrow, ncol, nzmax, nnz; void *i, *j, *x, *z; int stype, itype, xtype, dtype; } cholmod_triplet;
+    typedef struct cholmod_sparse_struct { size_t nrow, ncol; int stype; } cholmod_sparse; typedef struct cholmod_common_struct { int status; } cholmod_common;
+    #define CHOLMOD_REAL 1
+    #define VP_NZ %d
+    cholmod_sparse vp_result; size_t nondet_size(void); int nondet_int(void);
+    static cholmod_triplet* vp_triplet(size_t nrow, size_t ncol, size_t nzmax, size_t nnz, int stype) {
+    	cholmod_triplet* t = malloc(sizeof(cholmod_triplet)); __CPROVER_assume(t != NULL);
+    	t->nrow = nrow; t->ncol = ncol; t->nzmax = nzmax; t->nnz = nnz; t->stype = stype;
+    	t->i = malloc(nzmax*sizeof(long)); t->j = malloc(nzmax*sizeof(long)); t->x = malloc(nzmax*sizeof(double)); __CPROVER_assume(t->i && t->j && t->x); return t; }
+    /* assumed contracts of cholmod: sparse_to_triplet yields nnz <= nzmax entries in arrays of nzmax elements; allocate_triplet yields arrays of nzmax elements */
+    cholmod_triplet* cholmod_l_sparse_to_triplet(cholmod_sparse* A, cholmod_common* c) { size_t nz = nondet_size(); __CPROVER_assume(nz <= VP_NZ); size_t r = nondet_size(), cc = nondet_size(); __CPROVER_assume(r <= 64 && cc <= 64); return vp_triplet(r, cc, nz, nz, nondet_int()); }
+    cholmod_triplet* cholmod_l_allocate_triplet(size_t nrow, size_t ncol, size_t nzmax, int stype, int xtype, cholmod_common* c) { return vp_triplet(nrow, ncol, nzmax, 0, stype); }
+    cholmod_sparse* cholmod_l_triplet_to_sparse(cholmod_triplet* T, size_t nzmax, cholmod_common* c) { __CPROVER_assert(T->nnz <= T->nzmax, "triplet not over-filled"); return &vp_result; }
+    int cholmod_l_free_triplet(cholmod_triplet** T, cholmod_common* c) { *T = NULL; return 1; }
+    ''' % NZ
+    ct = ("cholmod_sparse* kronecker_product(cholmod_sparse* a, cholmod_sparse* b, cholmod_common* c)\n"
+          "__CPROVER_assigns()\n__CPROVER_ensures(__CPROVER_return_value != NULL)\n;\n")
+    loops = [("for", "__CPROVER_assigns(i, j, %s(tf->x), %s(tf->i), %s(tf->j))\n__CPROVER_loop_invariant(i >= 0 && (size_t)i <= ta->nnz && ta->nnz <= VP_NZ && tb->nnz <= VP_NZ && tf->nzmax == ta->nnz*tb->nnz && ta->nzmax == ta->nnz && tb->nzmax == tb->nnz)\n__CPROVER_decreases(ta->nnz - (size_t)i)" % (W, W, W)),
+             ("for", "__CPROVER_assigns(j, %s(tf->x), %s(tf->i), %s(tf->j))\n__CPROVER_loop_invariant(j >= 0 && (size_t)j <= tb->nnz && (size_t)i < ta->nnz && ta->nnz <= VP_NZ && tb->nnz <= VP_NZ && tf->nzmax == ta->nnz*tb->nnz)\n__CPROVER_decreases(tb->nnz - (size_t)j)" % (W, W, W))]
+    tu = pre + ct + kp.text(loops) + "void h_kp(void){ cholmod_sparse a, b; cholmod_common c; kronecker_product(&a, &b, &c); __CPROVER_assert(0, \"canary: reachable after call\"); }\n"
+    return kp, vlib.Job("C09-kronecker_product", tu, "h_kp", enforce="kronecker_product", expect_fail=[r"^h_kp\.assertion\.1$"], must_have=["loop_invariant_step", r"cholmod_l_triplet_to_sparse\.assertion"],
+                        timeout=1500, split=8, cbmc_flags=["--no-malloc-may-fail"], backend="cbmc-sat-contracts",
+                        note="every index i*nnz_b+j stays inside the nnz_a*nnz_b triplet; loops closed by invariants; nnz <= %d per factor; cholmod triplet primitives as nondeterministic stubs" % NZ)
+
 DESIGN = None
 def main():
     global PROG, DESIGN
@@ -169,6 +200,8 @@ def main():
             if not o[1]: rep.add_violation(name, o[0].replace(" ", "_")[:160], o[0] + ": " + o[2], trace=o[2])
         rep.samples += [o[0] for o in flat[:2]]
     # the per-dimension penalty terms fit() requests (order, penalty order, smoothing, monotonic flag): valid cases of the C13 harness
+    kpf, kpj = kronecker_job(thorough)
+    vlib.run_jobs([kpj], 1); rep.add_jobs([kpj]); rep.functions.append(kpf.info())
     import c13_fit, penalty_matrix
     c13_fit.add(rep, thorough, only_valid=True, name="C09-fit-penalty-terms")
     penalty_matrix.add(rep, thorough, monotonic=False, name="C09-penalty-matrix")
